@@ -16,9 +16,9 @@ namespace Kit.Broadcaster
 waiting callers (the lock is won out of call order), the first subscriber has received two values
 and holds the third in its buffer, the second was cancelled and its forwarder has left. -/
 def sampleLabels : List Label :=
-  [.subCall, .subCall, .subAcquire 1, .subAcquire 0, .subReturn 0, .subReturn 1,
+  [.subCall 1, .subCall 1, .subAcquire 1 1, .subAcquire 0 1, .subReturn 0, .subReturn 1,
    .bcCall 7, .bcCall 8, .bcAcquire 1, .bcPush, .bcPush, .bcFinish, .bcReturn 1,
-   .bcCall 9, .bcAcquire 0, .bcPush, .fwdTake 0, .fwdDeliver 0, .cancel 1, .fwdExitCtx 1,
+   .bcCall 9, .bcAcquire 0, .bcPush, .fwdTake 0, .fwdDeliver 0, .cancel 0, .fwdExitCtx 1,
    .fwdCloseExit 1, .bcSkipExit, .bcFinish, .bcAcquire 0, .bcPush, .fwdTake 0, .fwdDeliver 0]
 
 def sampleState : State := (runLabels .fixed init sampleLabels).getD init
@@ -30,10 +30,10 @@ theorem sample_reach : Reach .fixed sampleState := reach_of_run _ _ _ Reach.init
 /-- One stalled subscriber; 11 Broadcasts complete (10 in the buffer, 1 in the forwarder's hand);
 the 12th blocks holding the lock; then Close and a second Subscribe are called. -/
 def witnessLabels : List Label :=
-  [.subCall, .subAcquire 0, .subReturn 0,
+  [.subCall 1, .subAcquire 0 1, .subReturn 0,
    .bcCall 100, .bcAcquire 0, .bcPush, .bcFinish, .bcReturn 0, .fwdTake 0] ++
   ((List.range 10).flatMap fun k => [.bcCall (101 + k), .bcAcquire 0, .bcPush, .bcFinish, .bcReturn (k + 1)]) ++
-  [.bcCall 111, .bcAcquire 0, .closeCall, .subCall]
+  [.bcCall 111, .bcAcquire 0, .closeCall, .subCall 1]
 
 def witnessState : State := (runLabels .orig init witnessLabels).getD init
 
@@ -140,14 +140,82 @@ theorem remove_exact {v : Variant} {s s' : State} {i : Nat} (hr : Reach v s)
 /-- Non-vacuity: the churn schedule Subscribe A, Subscribe B, A leaves, Subscribe C, C leaves —
 C's removal (slot 2, id 2) leaves B (slot 1, id 1) in the list. -/
 def churnLabels : List Label :=
-  [.subCall, .subAcquire 0, .subCall, .subAcquire 0, .cancel 0, .fwdExitCtx 0, .fwdCloseExit 0,
-   .fwdRemove 0, .subCall, .subAcquire 0, .cancel 2, .fwdExitCtx 2, .fwdCloseExit 2]
+  [.subCall 1, .subAcquire 0 1, .subCall 1, .subAcquire 0 1, .cancel 0, .fwdExitCtx 0, .fwdCloseExit 0,
+   .fwdRemove 0, .subCall 1, .subAcquire 0 1, .cancel 2, .fwdExitCtx 2, .fwdCloseExit 2]
 
 example : ∃ s s', runLabels .fixed init churnLabels = some s ∧
     step .fixed s (.fwdRemove 2) = some s' ∧
     (s.subs.map (·.id)) = [0, 1, 2] ∧ (s'.subs.map (·.inList)) = [false, true, false] ∧
     s'.currentID = 3 :=
   ⟨_, _, rfl, rfl, by decide, by decide, by decide⟩
+
+/-! ### Variadic `Subscribe(ctx, ch₁ … chₙ)` -/
+
+/-- `subscribe_registers_prefix`: a `Subscribe` call with `n` channels registers a prefix of them, in
+order, with consecutive fresh ids and the call's context; it registers all `n` when the broadcaster is
+open and no `Close` is about to do its CAS, none when it is closed, and fewer than `n` only if the
+broadcaster is closed when the call returns. -/
+theorem subscribe_registers_prefix {v : Variant} {s s' : State} {k j : Nat}
+    (hs : step v s (.subAcquire k j) = some s') :
+    ∃ t n, s.waitS[k]? = some (t, n) ∧ j ≤ n ∧ t ∈ s'.retS ∧
+      (s'.subs = s.subs ∨ s'.subs = s.subs ++ newSubs s t j) ∧
+      (s.closed = true → s'.subs = s.subs) ∧
+      (s.closed = false → s'.subs = s.subs ++ newSubs s t j) ∧
+      (j < n → s'.closed = true) ∧
+      (s.closed = false → s.closeNew = 0 → j = n) := by
+  simp only [step, subAcquire] at hs
+  split at hs
+  · next t n hbc hk =>
+    refine ⟨t, n, hk, ?_⟩
+    split at hs
+    · next hcl =>
+      split at hs <;> simp at hs
+      next hj =>
+      subst hs; subst hj
+      simp [hcl]
+    · next hcl =>
+      split at hs
+      · next hj =>
+        simp at hs; subst hs; subst hj
+        simp [hcl]
+      · split at hs <;> simp at hs
+        next hj hg =>
+        subst hs
+        simp [hcl]
+        refine ⟨by omega, ?_⟩
+        intro h0; omega
+  · simp at hs
+
+/-- `cancel_reaches_every_channel`: cancelling the context of a `Subscribe` call cancels every
+subscriber that call registered and nobody else. -/
+theorem cancel_reaches_every_channel {v : Variant} {s s' : State} {c : Nat}
+    (hs : step v s (.cancel c) = some s') :
+    s'.subs.length = s.subs.length ∧
+    ∀ (i : Nat) (u : Sub), s.subs[i]? = some u → s'.subs[i]? = some (cancelSub c u) := by
+  simp only [step, cancel] at hs
+  simp at hs; subst hs
+  refine ⟨by simp, ?_⟩
+  intro i u hu
+  simp [List.getElem?_map, hu]
+
+theorem cancelSub_spec (c : Nat) (u : Sub) :
+    (u.call = c → (cancelSub c u).cancelled = true) ∧ (u.call ≠ c → cancelSub c u = u) ∧
+    (cancelSub c u).pc = u.pc ∧ (cancelSub c u).buf = u.buf ∧ (cancelSub c u).delivered = u.delivered := by
+  unfold cancelSub
+  by_cases h : u.call = c <;> simp [h]
+
+/-- Non-vacuity: one call with three channels while a `Close` is about to do its CAS registers only
+the first channel (ids 0, call 0), the other two are dropped and the broadcaster is closed; and a
+full registration of three channels followed by the cancellation of their context. -/
+example : ∃ s, runLabels .fixed init [.subCall 3, .closeCall, .subAcquire 0 1] = some s ∧
+    s.subs.length = 1 ∧ s.closed = true ∧ s.retS = [0] ∧ s.nextTag = 3 :=
+  ⟨_, rfl, by decide, by decide, by decide, by decide⟩
+
+example : ∃ s, runLabels .fixed init [.subCall 3, .subAcquire 0 3, .subCall 1, .subAcquire 0 1,
+      .cancel 0] = some s ∧
+    s.subs.map (fun u => (u.id, u.tag, u.call, u.cancelled)) =
+      [(0, 0, 0, true), (1, 1, 0, true), (2, 2, 0, true), (3, 3, 3, false)] :=
+  ⟨_, rfl, by decide⟩
 
 /-- The log order respects the order of `Broadcast` calls.  An entry records, at the moment
 `Broadcast` is *called*, the tickets of all `Broadcast` calls that have already *returned*
@@ -205,7 +273,7 @@ theorem closeReturned_mono {v : Variant} {s s' : State} {l : Label} (hs : step v
     simp
 
 def closedSampleLabels : List Label :=
-  [.subCall, .subAcquire 0, .subReturn 0, .bcCall 7, .bcAcquire 0, .bcPush, .bcFinish,
+  [.subCall 1, .subAcquire 0 1, .subReturn 0, .bcCall 7, .bcAcquire 0, .bcPush, .bcFinish,
    .closeCall, .closeCas, .closeChClose, .fwdExitClose 0, .fwdCloseExit 0, .fwdRemove 0,
    .closePass, .closeReturn]
 
@@ -310,30 +378,29 @@ example : ∃ s, Reach .fixed s ∧ closePending s ∧ s.bc.isSome = true ∧
 
 /-- `subscribe_can_complete`: a `Subscribe` call waiting for the lock can return, provided `Close`
 has been called or every stalled subscriber has left. -/
-theorem subscribe_can_complete (stalled : Nat → Bool) {s : State} {h : Nat}
-    (hr : Reach .fixed s) (hw : h ∈ s.waitS) (hH : Hyp stalled s) :
+theorem subscribe_can_complete (stalled : Nat → Bool) {s : State} {h n : Nat}
+    (hr : Reach .fixed s) (hw : (h, n) ∈ s.waitS) (hH : Hyp stalled s) :
     ∃ s', Path .fixed (allowed stalled) s s' ∧ h ∈ s'.retS := by
   obtain ⟨s1, p1, _, _, hf, hbc, _⟩ := drain_lock stalled hr hH
-  have hw1 : h ∈ s1.waitS := by rw [hf.waitS]; exact hw
+  have hw1 : (h, n) ∈ s1.waitS := by rw [hf.waitS]; exact hw
   obtain ⟨k, hk, hk'⟩ := List.getElem_of_mem hw1
-  have hk2 : s1.waitS[k]? = some h := by rw [List.getElem?_eq_getElem hk, hk']
+  have hk2 : s1.waitS[k]? = some (h, n) := by rw [List.getElem?_eq_getElem hk, hk']
   cases hcl : s1.closed with
   | true =>
-    have hs2 : step .fixed s1 (.subAcquire k) = some
+    have hs2 : step .fixed s1 (.subAcquire k 0) = some
         { s1 with waitS := s1.waitS.eraseIdx k, retS := s1.retS ++ [h] } := by
-      simp only [step, subAcquire, hbc, hk2, hcl]; rfl
+      simp [step, subAcquire, hbc, hk2, hcl]
     exact ⟨_, p1.trans (Path.cons _ (Or.inl rfl) hs2 (Path.refl _)), by simp⟩
   | false =>
-    have hs2 : step .fixed s1 (.subAcquire k) = some
+    have hs2 : step .fixed s1 (.subAcquire k n) = some
         { s1 with waitS := s1.waitS.eraseIdx k, retS := s1.retS ++ [h],
-                  subs := s1.subs ++ [Sub.new s1.currentID h s1.log.length],
-                  currentID := s1.currentID + 1 } := by
-      simp only [step, subAcquire, hbc, hk2, hcl]; rfl
+                  subs := s1.subs ++ newSubs s1 h n, currentID := s1.currentID + n } := by
+      simp [step, subAcquire, hbc, hk2, hcl]
     exact ⟨_, p1.trans (Path.cons _ (Or.inl rfl) hs2 (Path.refl _)), by simp⟩
 
 /-- All readers stalled: internal steps suffice. -/
-theorem subscribe_can_complete_stalled {s : State} {h : Nat} (hr : Reach .fixed s)
-    (hw : h ∈ s.waitS) (hH : Hyp (fun _ => true) s) :
+theorem subscribe_can_complete_stalled {s : State} {h n : Nat} (hr : Reach .fixed s)
+    (hw : (h, n) ∈ s.waitS) (hH : Hyp (fun _ => true) s) :
     ∃ s', IPath .fixed s s' ∧ h ∈ s'.retS := by
   obtain ⟨s', p, ht⟩ := subscribe_can_complete _ hr hw hH
   exact ⟨s', p.mono (fun l => internal_of_allowed_all), ht⟩
@@ -385,7 +452,7 @@ theorem broadcast_can_complete_stalled {s : State} {t : Nat} (hr : Reach .fixed 
 (stalled subscriber with 10 buffered + 1 in hand, 12th Broadcast blocked holding the lock, then
 Close and a second Subscribe) is reachable in the repaired model too, and satisfies every
 hypothesis: Close pending, Broadcast 11 pending, Subscribe 1 waiting. -/
-example : ∃ s, Reach .fixed s ∧ closePending s ∧ bcPending s 11 ∧ 1 ∈ s.waitS ∧
+example : ∃ s, Reach .fixed s ∧ closePending s ∧ bcPending s 11 ∧ (1, 1) ∈ s.waitS ∧
     Hyp (fun _ => true) s := by
   refine ⟨(runLabels .fixed init witnessLabels).getD init,
     reach_of_run _ _ _ Reach.init (by decide : runLabels .fixed init witnessLabels = some _),
@@ -454,10 +521,10 @@ theorem accepted_trace_has_run (v : Variant) (reduce hooked eager : Bool) (cap :
 
 -- non-vacuity (evaluated by the compiler; `decide` cannot run `Std.HashSet` in the kernel):
 #guard accepts .fixed true true true 1000
-  [.scall, .sret 0, .bcall 7, .bacq 7, .recv 0 7, .bret 0, .ccall, .cret] = true
+  [.scall 1, .sret 0, .bcall 7, .bacq 7, .recv 0 7, .bret 0, .ccall, .cret] = true
 #guard accepts .fixed true true true 1000
-  [.scall, .sret 0, .bcall 7, .bacq 7, .bret 0, .ccall, .cret, .recv 0 7] = false
-#guard accepts .fixed false false false 1000 [.scall, .sret 0, .bcall 7, .recv 0 7, .bret 0] = true
+  [.scall 1, .sret 0, .bcall 7, .bacq 7, .bret 0, .ccall, .cret, .recv 0 7] = false
+#guard accepts .fixed false false false 1000 [.scall 1, .sret 0, .bcall 7, .recv 0 7, .bret 0] = true
 
 /-! ### The code as found deadlocks: `close_blocked_witness` -/
 
